@@ -87,6 +87,9 @@ inductive Node where
   | boolean (pValue : NodeId) (onValue offValue : Int)
   /-- `Enumeration` with `pValue` and the `<Value>`s of its entries -/
   | enumeration (pValue : NodeId) (values : List Int)
+  /-- pseudo node (always the LAST one, never addressed by an operation): the access
+  controllers of the description, `node ↦ (pIsImplemented, pIsAvailable, pIsLocked)` -/
+  | ctls (tbl : List (NodeId × (Option NodeId × Option NodeId × Option NodeId)))
   deriving Repr, DecidableEq, Inhabited
 
 /-- Node ids are positions in the list. -/
@@ -579,6 +582,102 @@ def readable : Nat → NodeId → R Bool
     | some _ => .ok false
     | none => .panic
 
+/-! ### access queries (`is_readable` / `is_writable`) with controllers, through the cache -/
+
+/-- controllers of node `n` (from the trailing `ctls` pseudo node) -/
+def ctlOf (n : NodeId) : Option NodeId × Option NodeId × Option NodeId :=
+  match g.getLast? with
+  | some (.ctls tbl) => (alGet n tbl).getD (none, none, none)
+  | _ => (none, none, none)
+
+/-- `utils::bool_from_id`: an `IBoolean` node's value, else an `IInteger` node's value `!= 0` -/
+def boolFromId (F : Nat) (c : NodeId) : M κ Bool :=
+  match g[c]? with
+  | some (.boolean pv on off) => do
+    let v ← evalInt ops p g F pv
+    if v = on then M.pure true else if v = off then M.pure false else M.fail .invalidNode
+  | some (.reg r) =>
+    match r.kind with
+    | .int _ _ | .masked _ _ _ _ => do
+      let v ← evalInt ops p g F c
+      M.pure (decide (v ≠ 0))
+    | _ => M.fail .invalidNode
+  | some (.integer _ _) => do
+    let v ← evalInt ops p g F c
+    M.pure (decide (v ≠ 0))
+  | _ => M.fail .invalidNode
+
+def ctlVal (F : Nat) (o : Option NodeId) (dflt : Bool) : M κ Bool :=
+  match o with
+  | none => M.pure dflt
+  | some c => boolFromId ops p g F c
+
+/-- `NodeElementBase::is_readable` (`node_base.rs:138-147`; `&&` short-circuits; ImposedAccessMode RW) -/
+def baseReadable (F : Nat) (n : NodeId) : M κ Bool := do
+  let i ← ctlVal ops p g F (ctlOf g n).1 true
+  if i then ctlVal ops p g F (ctlOf g n).2.1 true else M.pure false
+
+/-- `NodeElementBase::is_writable` (`node_base.rs:149-159`) -/
+def baseWritable (F : Nat) (n : NodeId) : M κ Bool := do
+  let i ← ctlVal ops p g F (ctlOf g n).1 true
+  if i then do
+    let a ← ctlVal ops p g F (ctlOf g n).2.1 true
+    if a then do
+      let l ← ctlVal ops p g F (ctlOf g n).2.2 false
+      M.pure (!l)
+    else M.pure false
+  else M.pure false
+
+/-- `NodeId::is_readable::<i64>` (`ivalue.rs`) -/
+def isReadableI (F : Nat) : Nat → NodeId → M κ Bool
+  | 0, _ => M.panic
+  | fuel + 1, n =>
+    match g[n]? with
+    | some (.reg r) =>
+      match r.kind with
+      | .int _ _ | .masked _ _ _ _ => do
+        let b ← baseReadable ops p g F n
+        M.pure (b && decide (r.acc ≠ .wo))
+      | _ => M.pure false
+    | some (.integer pv _) => do
+      let b ← baseReadable ops p g F n
+      if b then isReadableI F fuel pv else M.pure false
+    | some (.enumeration pv _) => do
+      let b ← baseReadable ops p g F n
+      if b then isReadableI F fuel pv else M.pure false
+    | some _ => M.pure false
+    | none => M.panic
+
+/-- `b &= nid.is_writable()?` over the `pValueCopy`s: all are evaluated -/
+def andAllM (f : NodeId → M κ Bool) : List NodeId → Bool → M κ Bool
+  | [], b => M.pure b
+  | c :: cs, b => do
+    let y ← f c
+    andAllM f cs (b && y)
+
+/-- `NodeId::is_writable::<i64>`: integer kinds and Enumerations (`ivalue.rs`) -/
+def isWritableI (F : Nat) : Nat → NodeId → M κ Bool
+  | 0, _ => M.panic
+  | fuel + 1, n =>
+    match g[n]? with
+    | some (.reg r) =>
+      match r.kind with
+      | .int _ _ | .masked _ _ _ _ => do
+        let b ← baseWritable ops p g F n
+        M.pure (b && decide (r.acc ≠ .ro))
+      | _ => M.pure false
+    | some (.integer pv cs) => do
+      let b ← baseWritable ops p g F n
+      if b then do
+        let x ← isWritableI F fuel pv
+        andAllM (isWritableI F fuel) cs x
+      else M.pure false
+    | some (.enumeration pv _) => do
+      let b ← baseWritable ops p g F n
+      if b then isWritableI F fuel pv else M.pure false
+    | some _ => M.pure false
+    | none => M.panic
+
 /-! ### operations of the public interface -/
 
 inductive Op where
@@ -597,6 +696,9 @@ inductive Op where
   | clearCache
   /-- `IRegister::address` (evaluates the selector through the cached path) -/
   | address (n : NodeId)
+  /-- `is_readable` / `is_writable` of the node's value interface -/
+  | isReadable (n : NodeId)
+  | isWritable (n : NodeId)
   deriving Repr, DecidableEq, Inhabited
 
 def opValue (fuel : Nat) (n : NodeId) : M κ Val :=
@@ -699,7 +801,7 @@ def opIsDone (fuel : Nat) (n : NodeId) : M κ Val :=
   match g[n]? with
   | some (.command pv cv) => do
     invOf ops pv
-    let rd ← M.lift (readable g fuel pv)
+    let rd ← isReadableI ops p g fuel fuel pv
     if rd then
       let v ← evalInt ops p g fuel pv
       M.pure (.bool (cv ≠ v))
@@ -712,6 +814,46 @@ def opAddress (fuel : Nat) (n : NodeId) : M κ Val :=
   | some (.reg r) => do
     let a ← regAddr p (evalInt ops p g fuel) r
     M.pure (.int a)
+  | _ => M.fail .invalidNode
+
+/-- `IInteger / IFloat / IString / IEnumeration / IBoolean::is_readable` -/
+def opIsReadable (F : Nat) (n : NodeId) : M κ Val :=
+  match g[n]? with
+  | some (.reg r) =>
+    match r.kind with
+    | .raw => M.fail .invalidNode
+    | _ => do
+      let b ← baseReadable ops p g F n
+      M.pure (.bool (b && decide (r.acc ≠ .wo)))
+  | some (.integer _ _) | some (.enumeration _ _) => do
+    let b ← isReadableI ops p g F F n
+    M.pure (.bool b)
+  | some (.boolean pv _ _) => do
+    let b ← baseReadable ops p g F n
+    if b then do
+      let x ← isReadableI ops p g F F pv
+      M.pure (.bool x)
+    else M.pure (.bool false)
+  | _ => M.fail .invalidNode
+
+/-- `…::is_writable` (also `ICommand`) -/
+def opIsWritable (F : Nat) (n : NodeId) : M κ Val :=
+  match g[n]? with
+  | some (.reg r) =>
+    match r.kind with
+    | .raw => M.fail .invalidNode
+    | _ => do
+      let b ← baseWritable ops p g F n
+      M.pure (.bool (b && decide (r.acc ≠ .ro)))
+  | some (.integer _ _) => do
+    let b ← isWritableI ops p g F F n
+    M.pure (.bool b)
+  | some (.enumeration pv _) | some (.boolean pv _ _) | some (.command pv _) => do
+    let b ← baseWritable ops p g F n
+    if b then do
+      let x ← isWritableI ops p g F F pv
+      M.pure (.bool x)
+    else M.pure (.bool false)
   | _ => M.fail .invalidNode
 
 def evalOp (fuel : Nat) : Op → M κ Val
@@ -731,6 +873,8 @@ def evalOp (fuel : Nat) : Op → M κ Val
     clearCache ops
     M.pure .unit
   | .address n => opAddress ops p g fuel n
+  | .isReadable n => opIsReadable ops p g fuel n
+  | .isWritable n => opIsWritable ops p g fuel n
 
 /-- fuel that suffices for every acyclic description -/
 def fuelOf (g : Graph) : Nat := g.length + 1
@@ -814,6 +958,94 @@ def portDeclaredB (g : Graph) (pn : NodeId) : Bool :=
   g.all fun nd => match nd with
     | .reg rt => rt.mode == .noCache || rt.invs.contains pn
     | _ => true
+
+/-! ## Feature-level declarations: "… or a feature node through which the write is issued"
+
+`IntegerNode::set_value`, `EnumerationNode::set_entry_by_value`, `BooleanNode::set_value` and
+`CommandNode::execute` call `invalidate_cache_by(self)` before they forward along
+`pValue` / `pValueCopy`.  A cached register `t` may therefore declare, instead of the writing
+register or its port, a FEATURE on the path of the operation — provided nothing re-populates
+`t` between that invalidation and the device write, i.e. the operation does not itself read or
+write `t` (its footprint: the registers it writes, and the selector registers read for their
+addresses). -/
+
+/-- registers `NodeId::value::<i64>` of `n` reads (selector cones included) -/
+def cone (g : Graph) : Nat → NodeId → List NodeId
+  | 0, _ => []
+  | fuel + 1, n =>
+    match g[n]? with
+    | some (.reg r) =>
+      n :: (match r.sel with
+            | some (s, _) => cone g fuel s
+            | none => [])
+    | some (.integer pv _) => cone g fuel pv
+    | some (.enumeration pv _) => cone g fuel pv
+    | _ => []
+
+/-- footprint of `NodeId::set_value::<i64>` entering at `n`: registers written (and, for their
+addresses and read-modify-writes, read) -/
+def wcone (g : Graph) : Nat → NodeId → List NodeId
+  | 0, _ => []
+  | fuel + 1, n =>
+    match g[n]? with
+    | some (.reg r) =>
+      n :: (match r.sel with
+            | some (s, _) => cone g fuel s
+            | none => [])
+    | some (.integer pv cs) => wcone g fuel pv ++ cs.flatMap (wcone g fuel)
+    | some (.enumeration pv _) => wcone g fuel pv
+    | _ => []
+
+/-- the write through register `n`, reached after the features `J` invalidated themselves, is
+declared by every cachable register it may overlap: the register lists `n`, `n`'s port, or —
+being outside the operation's footprint (`U`) — one of the features `J` -/
+def regOk (p : Profile) (g : Graph) (U : NodeId → Bool) (J : List NodeId) (n : NodeId) (rw : Reg) : Bool :=
+  (List.range g.length).all fun t =>
+    match g[t]? with
+    | some (.reg rt) =>
+      rt.mode == .noCache || !mayOverlap p g n rw t rt || rt.invs.contains n ||
+        rt.invs.contains rw.port || (U t && J.any fun j => rt.invs.contains j)
+    | _ => true
+
+/-- every register write that `set_value` entering at `n` can issue is declared (`regOk`),
+collecting the features that invalidate themselves on the way -/
+def viaOk (p : Profile) (g : Graph) (U : NodeId → Bool) : Nat → List NodeId → NodeId → Bool
+  | 0, _, _ => true
+  | fuel + 1, J, n =>
+    match g[n]? with
+    | some (.reg rw) => regOk p g U J n rw
+    | some (.integer pv cs) => viaOk p g U fuel (n :: J) pv && cs.all (viaOk p g U fuel (n :: J))
+    | some (.enumeration pv _) => viaOk p g U fuel (n :: J) pv
+    | _ => true
+
+/-- footprint of a write entering at `e` (the typed register writes evaluate the address with
+one more unit of fuel than `set_value::<i64>` does; on acyclic descriptions both lists agree) -/
+def footprint (g : Graph) (e : NodeId) : List NodeId :=
+  wcone g (fuelOf g) e ++ wcone g (fuelOf g + 1) e
+
+/-- registers outside the footprint of a write entering at `e` -/
+def protectedOf (g : Graph) (e : NodeId) : NodeId → Bool :=
+  fun t => !(footprint g e).contains t
+
+/-- one operation is declared, feature-level declarations included -/
+def opOk (p : Profile) (g : Graph) : Op → Bool
+  | .setValue n _ =>
+    match g[n]? with
+    | some (.boolean pv _ _) => viaOk p g (protectedOf g pv) (fuelOf g) [n] pv
+    | _ => viaOk p g (protectedOf g n) (fuelOf g) [] n
+  | .execute n =>
+    match g[n]? with
+    | some (.command pv _) => viaOk p g (protectedOf g pv) (fuelOf g) [n] pv
+    | _ => true
+  | .write n _ =>
+    match g[n]? with
+    | some (.reg rw) => regOk p g (protectedOf g n) [] n rw
+    | _ => true
+  | .portWrite n _ _ => portDeclaredB g n
+  | _ => true
+
+/-- the history is declared, operation by operation -/
+def declaredForB (p : Profile) (g : Graph) (h : List Op) : Bool := h.all (opOk p g)
 
 /-- initial states of the two builds -/
 def initDefault (g : Graph) (d : Dev) : St Store := ⟨buildStore g, d⟩
